@@ -10,6 +10,8 @@ pub fn dispatch(mode: &str, engine: &str, rest: &[String]) -> anyhow::Result<()>
         ("runsrc", "sem") => sem::runsrc(rest),
         ("replay", "sess") => sem::replay_sessions(rest),
         ("replay", "lim") => sem::replay_limits(rest),
+        ("record", "gcprog") => sem::record_gcprog(rest),
+        ("replay", "gc") => sem::replay_gc(rest),
         _ => anyhow::bail!("unknown mode/engine {} {}", mode, engine),
     }
 }
